@@ -277,6 +277,27 @@ class Failing(object):
             self.blk[address + i] = v
 
 
+class FailingBlock(Failing):
+    """the same failure one level down: a data block inside a real ModbusSlaveContext"""
+
+    def validate(self, address, count=1):
+        return Failing.validate(self, None, address, count)
+
+    def getValues(self, address, count=1):
+        return Failing.getValues(self, None, address, count)
+
+    def setValues(self, address, values):
+        return Failing.setValues(self, None, address, values)
+
+
+def failing_store(level, which, exc):
+    if level == 'context':
+        return Failing(which, exc)
+    from pymodbus.datastore import ModbusSlaveContext
+    return ModbusSlaveContext(di=FailingBlock(which, exc), co=FailingBlock(which, exc), hr=FailingBlock(which, exc),
+                              ir=FailingBlock(which, exc), zero_mode=True)
+
+
 EXCS = ('RuntimeError', 'NotImplementedException', 'ParameterException', 'ModbusIOException', 'KeyError', 'IOError',
         'RuntimeError()', 'TimeoutError()', 'NotImplementedError()')
 
@@ -335,8 +356,8 @@ def shard_failure(args):
             if which not in uses:
                 continue
             raw = pdu.encode(m)
-            for exc in EXCS:
-              for ignore in (False, True):
+            for exc, ignore, level in [(e, i, 'context') for e in EXCS for i in (False, True)] + \
+                                      [(e, False, 'block') for e in ('RuntimeError', 'KeyError', 'IOError', 'ParameterException')]:
                 req = framers.decoder('req').decode(raw)
                 req.unit_id = 1
                 req.transaction_id = 0x55
@@ -344,9 +365,13 @@ def shard_failure(args):
                 wit = dict(front=front, raises=which, request=raw.hex())
                 if exc != 'RuntimeError' or ignore:
                     wit.update(exc=exc, ignore=ignore)
+                if level != 'context':
+                    wit.update(exc=exc, level=level)
                 tag = '' if exc == 'RuntimeError' and not ignore else '/%s%s' % (exc, '+ignore-missing' if ignore else '')
+                if level != 'context':
+                    tag = '/%s/in-block' % exc
                 try:
-                    sent = frontend_execute(front, Failing(which, exc), req, ignore)
+                    sent = frontend_execute(front, failing_store(level, which, exc), req, ignore)
                 except Exception as e:   # noqa
                     acc.violation('C05/fc%02d/ex04/raise:%s/%s%s' % (m['fc'], type(e).__name__, front, tag), wit,
                                   'the execute wrapper let %r escape' % e, front)
@@ -398,7 +423,7 @@ def replay(w):
         req = framers.decoder('req').decode(raw)
         req.unit_id, req.transaction_id = 1, 0x55
         try:
-            sent = [bind.pdu_bytes(x).hex() for x in frontend_execute(w['front'], Failing(w['raises'], w.get('exc', 'RuntimeError')), req, w.get('ignore', False))]
+            sent = [bind.pdu_bytes(x).hex() for x in frontend_execute(w['front'], failing_store(w.get('level', 'context'), w['raises'], w.get('exc', 'RuntimeError')), req, w.get('ignore', False))]
         except Exception as e:   # noqa
             return True, 'escaped: %r' % e
         return sent != [bytes([raw[0] | 0x80, 4]).hex()], 'responses %r' % sent
